@@ -52,7 +52,8 @@ type Op struct {
 	Type    string `json:"type,omitempty"`
 	Payload string `json:"payload,omitempty"`
 	Salt    int    `json:"salt,omitempty"`
-	Ann     string `json:"ann,omitempty"` // force: jwt | basic | both | minion
+	Ann     string `json:"ann,omitempty"` // force: jwt | basic | both | master | minion | xminion-basic | xminion-jwt
+	MNS     string `json:"mns,omitempty"` // force xminion-*: the namespace of the master (the minion lives in NS)
 	Valid   bool   `json:"valid"`
 	Want    bool   `json:"want"` // the verdict the payload was built to get (catalogue below)
 	Main    string `json:"main,omitempty"`
@@ -67,18 +68,22 @@ type File struct {
 }
 
 type StepObs struct {
-	LS     []File   `json:"ls"`
-	Path   string   `json:"path"` // get/force: SecretReference.Path with the directory stripped
-	Err    bool     `json:"err"`  // get/force: SecretReference.Error != nil
-	Panic  string   `json:"panic,omitempty"`
-	Synced []string `json:"synced,omitempty"` // drain: keys of the tasks the worker processed, in order
+	LS      []File   `json:"ls"`
+	Path    string   `json:"path"` // get/force: SecretReference.Path with the directory stripped
+	Err     bool     `json:"err"`  // get/force: SecretReference.Error != nil
+	Panic   string   `json:"panic,omitempty"`
+	Special []File   `json:"special,omitempty"` // the files of the special Secrets (default, wildcard), kept apart
+	Synced  []string `json:"synced,omitempty"`  // drain: keys of the tasks the worker processed, in order
 }
 
 type Case struct {
 	ID    int    `json:"id"`
 	Class string `json:"class"`
-	Ops   []Op   `json:"ops"`
-	Obs   any    `json:"obs"`
+	// controller family: keys (ns/name) configured as -wildcard-tls-secret / -default-server-tls-secret
+	Wildcard string `json:"wildcard,omitempty"`
+	Default  string `json:"default,omitempty"`
+	Ops      []Op   `json:"ops"`
+	Obs      any    `json:"obs"`
 }
 
 type Consts struct {
@@ -354,6 +359,23 @@ func (s *sut) ls() []File {
 	return out
 }
 
+// lsSplit separates the files of the special Secrets from the rest when such Secrets are configured.
+func (s *sut) lsSplit(special bool) (regular, spec []File) {
+	all := s.ls()
+	if !special {
+		return all, nil
+	}
+	regular = []File{}
+	for _, f := range all {
+		if f.Name == configs.DefaultServerSecretFileName || f.Name == configs.WildcardSecretFileName {
+			spec = append(spec, f)
+		} else {
+			regular = append(regular, f)
+		}
+	}
+	return regular, spec
+}
+
 func (s *sut) rel(p string) string { return strings.ReplaceAll(p, s.sdir+"/", "") }
 
 func ingressFor(ns, name, ann string) *networking.Ingress {
@@ -393,6 +415,17 @@ func (s *sut) force(o Op) *secrets.SecretReference {
 	with := map[string]*secrets.SecretReference{o.Name: ref}
 	none := map[string]*secrets.SecretReference{}
 	switch o.Ann {
+	case "xminion-basic", "xminion-jwt":
+		// a minion in namespace NS, carrying the annotation, under a master in ANOTHER namespace MNS
+		// (masters and minions are matched by host only)
+		master := ingressFor(o.MNS, o.Name, "")
+		master.Name = "ing-master"
+		master.Annotations["nginx.org/mergeable-ingress-type"] = "master"
+		master.Spec.Rules[0].HTTP = nil
+		minion := ingressFor(o.NS, o.Name, strings.TrimPrefix(o.Ann, "xminion-"))
+		minion.Name = "ing-minion"
+		minion.Annotations["nginx.org/mergeable-ingress-type"] = "minion"
+		_, _ = s.cnf.AddOrUpdateMergeableIngress(&configs.MergeableIngresses{Master: mk(master, none), Minions: []*configs.IngressEx{mk(minion, with)}})
 	case "master", "minion":
 		// mergeable Ingresses: the annotation sits on the master or on the minion
 		master := ingressFor(o.NS, o.Name, map[string]string{"master": "jwt", "minion": ""}[o.Ann])
@@ -478,7 +511,8 @@ func runCtl(s *sut, c *Case) {
 		}
 		return w
 	}
-	ctl := k8s.VerifC11New(s.ctx, s.cnf, watchedList(), cleanNS)
+	ctl := k8s.VerifC11New(s.ctx, s.cnf, watchedList(), cleanNS, c.Wildcard, c.Default)
+	hasSpecial := c.Wildcard != "" || c.Default != ""
 	steps := make([]StepObs, 0, len(c.Ops))
 	rv := 0
 	must := func(so *StepObs, what string, err error) {
@@ -556,7 +590,7 @@ func runCtl(s *sut, c *Case) {
 					return
 				}
 				*s = *ns
-				ctl = k8s.VerifC11New(s.ctx, s.cnf, watchedList(), cleanNS)
+				ctl = k8s.VerifC11New(s.ctx, s.cnf, watchedList(), cleanNS, c.Wildcard, c.Default)
 				for _, k := range order {
 					if sec, ok := api[k]; ok && !unwatched[sec.Namespace] {
 						_, err := ctl.Put(sec)
@@ -565,7 +599,7 @@ func runCtl(s *sut, c *Case) {
 				}
 			}
 		}()
-		so.LS = s.ls()
+		so.LS, so.Special = s.lsSplit(hasSpecial)
 		steps = append(steps, so)
 	}
 	c.Obs = map[string]any{"steps": steps}
@@ -608,6 +642,15 @@ func genCtl(r *vh.Rng, id int) Case {
 		}
 		return t
 	}
+	special := map[int]bool{}
+	newType0 := newType
+	curKey := 0
+	newType = func() string {
+		if special[curKey] {
+			return "kubernetes.io/tls"
+		}
+		return newType0()
+	}
 	cur := make([]string, len(keys)) // type of the object that exists now
 	exists := make([]bool, len(keys))
 	n := 8 + r.Intn(24)
@@ -615,12 +658,25 @@ func genCtl(r *vh.Rng, id int) Case {
 	salt := 0
 	// mode 0: the controller is running; 1: start-up over an existing cluster, namespaces lose and
 	// get the watch label; 2: start-up, and the process restarts over the surviving directory
-	mode := r.Intn(3)
-	class := []string{"ctl", "ctl-life", "ctl-restart"}[mode]
+	mode := r.Intn(4)
+	class := []string{"ctl", "ctl-life", "ctl-restart", "ctl-special"}[mode]
+	// mode 3: as mode 1, and the first key is the -wildcard-tls-secret (often also the second one the
+	// -default-server-tls-secret): special Secrets that resources use as ordinary Secrets too
+	wildcard, deflt := "", ""
+	if mode == 3 {
+		wildcard = keys[0].ns + "/" + keys[0].name
+		special[0] = true
+		if r.Chance(1, 2) {
+			deflt = keys[1].ns + "/" + keys[1].name
+			special[1] = true
+		}
+		mode = 1
+	}
 	unw := map[string]bool{}
 	if mode > 0 {
 		for i, k := range keys {
 			if r.Chance(4, 5) {
+				curKey = i
 				cur[i], exists[i] = newType(), true
 				salt++
 				ops = append(ops, cput(k, cur[i], pickPayload(r, cur[i], r.Chance(3, 4)), salt))
@@ -633,6 +689,7 @@ func genCtl(r *vh.Rng, id int) Case {
 		i := r.Intn(len(keys))
 		k := keys[i]
 		x := r.Intn(100)
+		curKey = i
 		put := func() {
 			if !exists[i] {
 				cur[i], exists[i] = newType(), true
@@ -675,7 +732,7 @@ func genCtl(r *vh.Rng, id int) Case {
 		}
 	}
 	ops = append(ops, drain, get(keys[0]))
-	return Case{ID: id, Class: class, Ops: ops}
+	return Case{ID: id, Class: class, Ops: ops, Wildcard: wildcard, Default: deflt}
 }
 
 // ---------- generators ----------
@@ -733,6 +790,20 @@ func witnesses() []Case {
 			restart, start, drain, get(keyT{"team", "s1"}), get(x)}},
 		{Class: "witness-ctl-unwatch-pending", Ops: []Op{
 			cput(keyT{"team", "s1"}, "kubernetes.io/tls", "pairB", 0), unwatch("team"), drain, get(keyT{"team", "s1"})}},
+		{Class: "witness-xns-minion", Ops: []Op{
+			up(keyT{"team", "users"}, "nginx.org/htpasswd", "ok", 1), up(keyT{"a", "users"}, "nginx.org/htpasswd", "ok", 2),
+			get(keyT{"a", "users"}), get(keyT{"team", "users"}),
+			{Op: "force", NS: "team", Name: "users", Ann: "xminion-basic", MNS: "a"}, get(keyT{"team", "users"}),
+			up(keyT{"team", "users"}, "nginx.org/htpasswd", "ok", 3), get(keyT{"team", "users"}), get(keyT{"a", "users"}),
+			up(keyT{"default", "jk"}, "nginx.org/jwk", "nokey", 4),
+			{Op: "force", NS: "default", Name: "jk", Ann: "xminion-jwt", MNS: "team"}, up(keyT{"default", "jk"}, "nginx.org/jwk", "jwk", 5),
+			get(keyT{"default", "jk"})}},
+		{Class: "witness-ctl-special-unwatch", Wildcard: "team/s1", Default: "default/x", Ops: []Op{
+			cput(keyT{"team", "s1"}, "kubernetes.io/tls", "pairB", 0), cput(x, "kubernetes.io/tls", "pairA", 0),
+			cput(keyT{"team", "s2"}, "kubernetes.io/tls", "pairC", 0), start, drain,
+			get(keyT{"team", "s1"}), get(keyT{"team", "s2"}), get(x), unwatch("team"), get(keyT{"team", "s1"}),
+			cdel(keyT{"team", "s1"}), watch("team"), drain, get(keyT{"team", "s1"}), get(keyT{"team", "s2"}),
+			cput(x, "kubernetes.io/tls", "mismatch", 1), drain, get(x), cdel(x), drain, get(x)}},
 		{Class: "witness-force", Ops: []Op{
 			up(x, "nginx.org/jwk", "nokey", 0), force(x, "jwt"), get(x), up(x, "nginx.org/jwk", "jwk", 1), get(x),
 			up(x, "nginx.org/jwk", "nokey", 2), get(x), up(x, "nginx.org/jwk", "jwk", 3), del(x), force(x, "basic"),
@@ -757,7 +828,7 @@ func pickPayload(r *vh.Rng, typ string, wantValid bool) string {
 }
 
 func genHistory(r *vh.Rng, id int) Case {
-	classes := []string{"clean", "clean", "clean", "force", "force", "ca", "collide", "casuffix", "retype", "mixed"}
+	classes := []string{"clean", "clean", "clean", "force", "force", "ca", "collide", "casuffix", "retype", "mixed", "xns"}
 	class := classes[r.Intn(len(classes))]
 	// the keys of this history and the type each starts with
 	var keys []keyT
@@ -769,6 +840,11 @@ func genHistory(r *vh.Rng, id int) Case {
 		}
 		if r.Chance(3, 4) {
 			keys[0], keys[1] = keyT{"a-b", "c"}, keyT{"a", "b-c"}
+		}
+	case "xns": // Secrets of the same name in several namespaces
+		nm := vh.Pick(r, cleanNames)
+		for _, n := range cleanNS[:2+r.Intn(3)] {
+			keys = append(keys, keyT{n, nm})
 		}
 	case "casuffix":
 		keys = []keyT{{"default", "x"}, {"default", "x-ca.crt"}, {"default", "x-ca.crl"}, {"team", "x"}}[:2+r.Intn(3)]
@@ -797,6 +873,8 @@ func genHistory(r *vh.Rng, id int) Case {
 			}
 		case class == "collide":
 			types[i] = vh.Pick(r, fileTypes)
+		case class == "xns":
+			types[i] = vh.Pick(r, []string{"nginx.org/htpasswd", "nginx.org/jwk"})
 		default:
 			t := supportedTypes[r.Intn(len(supportedTypes))]
 			for t == "nginx.org/ca" {
@@ -815,7 +893,7 @@ func genHistory(r *vh.Rng, id int) Case {
 		i := r.Intn(len(keys))
 		k := keys[i]
 		x := r.Intn(100)
-		forceOK := class == "force" || class == "mixed"
+		forceOK := class == "force" || class == "mixed" || class == "xns"
 		switch {
 		case x < 38:
 			if (class == "retype" || class == "mixed") && r.Chance(1, 3) {
@@ -835,7 +913,16 @@ func genHistory(r *vh.Rng, id int) Case {
 		case x < 86:
 			ops = append(ops, del(k))
 		case x < 96 && forceOK:
-			ops = append(ops, force(k, vh.Pick(r, []string{"jwt", "basic", "both", "master", "minion"})))
+			if class == "xns" || r.Chance(1, 4) {
+				// a minion in k's namespace under a master in another namespace
+				mns := vh.Pick(r, cleanNS)
+				for mns == k.ns {
+					mns = vh.Pick(r, cleanNS)
+				}
+				ops = append(ops, Op{Op: "force", NS: k.ns, Name: k.name, Ann: vh.Pick(r, []string{"xminion-basic", "xminion-jwt"}), MNS: mns})
+			} else {
+				ops = append(ops, force(k, vh.Pick(r, []string{"jwt", "basic", "both", "master", "minion"})))
+			}
 		case x < 98:
 			ops = append(ops, Op{Op: "get", Key: vh.Pick(r, []string{"nosuch/secret", k.ns + "-" + k.name, k.name, ""})})
 		default:
